@@ -123,6 +123,29 @@ func runCase(t *testing.T, c *Case) (res *RunResult, w *World) {
 		})
 	}()
 	if w != nil {
+		for _, cl := range w.Clients {
+			switch {
+			case cl.HandshakeOK:
+				w.Probes["handshake_ok"]++
+				w.Probes["proto_"+cl.NegProto]++
+				if cl.TLSVersion == 0x0304 {
+					w.Probes["tls13"]++
+				} else {
+					w.Probes["tls12"]++
+				}
+				if cl.Plan.Hello != nil && cl.Plan.Hello.NoExtensions {
+					w.Probes["hello_without_extensions"]++
+				}
+			case cl.HandshakeErr != "":
+				w.Probes["handshake_failed"]++
+				e := cl.HandshakeErr
+				if len(e) > 60 {
+					e = e[:60]
+				}
+				w.Probes["hs_err: "+e]++
+			}
+		}
+		w.Probes["backend_requests"] += len(w.BackReqs)
 		res.Violations = w.Violations
 		if c.Nontrivial != nil {
 			res.Nontrivial = c.Nontrivial(w, c)
